@@ -39,7 +39,9 @@ def _meta_of(segno, code):
     q = segno.QRCode(code)
     return q, {'version': q.version, 'error': q.error, 'mask': q.mask, 'is_micro': q.is_micro,
                'designator': q.designator, 'mode': q.mode, 'symbol_size': q.symbol_size(),
-               'default_border_size': q.default_border_size}
+               'default_border_size': q.default_border_size,
+               'symbol_size_3_1': q.symbol_size(scale=3, border=1), 'symbol_size_2_0': q.symbol_size(2, 0),
+               'symbol_size_2.5_default': q.symbol_size(scale=2.5)}
 
 
 def observe_encode(args, result):
